@@ -5,6 +5,7 @@ import (
 	"io"
 	"runtime/debug"
 
+	"github.com/mosaicnetworks/babble/src/peers"
 	"github.com/sirupsen/logrus"
 )
 
@@ -21,3 +22,7 @@ func sha(s string) []byte {
 }
 
 func stackHere() string { return string(debug.Stack()) }
+
+func mkHonestPeer(pub string) *peers.Peer { return peers.NewPeer(pub, "addr0", "n0") }
+
+func quietBadger() *logrus.Entry { return discardLogger() }
